@@ -14,7 +14,7 @@ Verdict(e) ==
     LET reach == WithImmediates(e.code, MayReach(e.code))
         ex == {e.executed[i] : i \in 1..Len(e.executed)}
     IN (IF ex \subseteq reach THEN {} ELSE {"Inv_C08_Edge/cfg"})
-       \cup (IF e.exact /\ ~e.panic /\ ~((reach \ JumpDests(e.code)) \subseteq ex) THEN {"Inv_C08_Both/cfg"} ELSE {})
+       \cup (IF e.exact /\ ~e.panic /\ ~((reach \ DestsOf(e.code, Instrs(e.code))) \subseteq ex) THEN {"Inv_C08_Both/cfg"} ELSE {})
 
 Init == l = 1 /\ viol = << >> /\ cnt = [programs |-> 0, exact |-> 0] /\ TLCSet(1, << >>) /\ TLCSet(2, cnt)
 
